@@ -142,7 +142,7 @@ class Machine(object):
                     return f
 
     # ---------------------------------------------------------------- conditions and actions
-    def need(self, nd, F):
+    def need(self, nd, F, fm=None):
         k = nd["k"]
         cmp = lambda a, op, b: {"==": a == b, "!=": a != b, "<": a < b, "<=": a <= b, ">=": a >= b, ">": a > b}[op]
         if k == "cd":
@@ -159,12 +159,21 @@ class Machine(object):
             r = self.framers[nd["fr"]].done
         elif k == "st":
             r = self.framers[nd["fr"]].status == nd["st"]
+        elif k == "ad":
+            frame = fm if nd.get("frame") is None else F.frames[nd["frame"]]
+            if nd["which"] == "any":
+                r = any(a.done for a in frame.auxes)
+            elif nd["which"] == "all":
+                r = bool(frame.auxes) and all(a.done for a in frame.auxes)
+            else:
+                a = self.framers[nd["which"]]
+                r = (a in frame.auxes) and a.done
         r = (not r) if nd.get("neg") else r
         self.outcomes.setdefault(id(nd), set()).add(bool(r))
         return r
 
-    def needs(self, nds, F):
-        return all(self.need(nd, F) for nd in nds)
+    def needs(self, nds, F, fm=None):
+        return all(self.need(nd, F, fm) for nd in nds)
 
     def act(self, a, fm, ctx):
         k = a["k"]
@@ -180,7 +189,8 @@ class Machine(object):
         elif k == "copy":
             self.vals[a["dst"]] = self.vals[a["src"]]
         elif k == "done":
-            fm.framer.done = True
+            for t in a.get("targets", ["me"]):
+                (fm.framer if t == "me" else self.framers[t]).done = True
         elif k == "bid":
             for t in a["targets"]:
                 tg = [self.framers[x] for x in floeng.taskables(self.prog)] if t == "all" else \
@@ -191,7 +201,7 @@ class Machine(object):
 
     # ---------------------------------------------------------------- frames
     def can_enter(self, fm, exits):
-        if not self.needs(fm.beacts, fm.framer):
+        if not self.needs(fm.beacts, fm.framer, fm):
             return False
         for aux in fm.auxes:
             if aux.main is not None and aux.main is not fm and aux.main not in exits:
@@ -268,7 +278,7 @@ class Machine(object):
                         return
 
     def transition(self, F, near, nds, far):
-        if not self.needs(nds, F):
+        if not self.needs(nds, F, near):
             return False
         cur, tgt = F.actives, far.outline
         cut = None
@@ -304,7 +314,7 @@ class Machine(object):
 
     def conditional(self, F, main, nds, aux):
         if aux.done:
-            if not self.needs(nds, F):
+            if not self.needs(nds, F, main):
                 return False
             if aux.main is not None and aux.main is not main:
                 return False
